@@ -671,13 +671,19 @@ theorem holds1_iff (mode : Mode) (abs rel : Option Rat) (v : Val) (e : Exp) :
   · exact holds1_text abs rel v e
   · exact holds1_numeric abs rel v e
 
-/-- **an expectation holds of the engine**: the period is given, the engine computes the variable
-for it, the instance (if one is named) exists, the margins of the variable are defined, the
-expected value broadcasts against the selected elements and every pair is within the margins -/
-def Holds (w : Sim) (t : YTest) (x : Expectation) : Prop :=
+/-- **the expected value lies within the margins of the engine's value**: the period is given, the
+engine computes the variable for it, the instance (if one is named) is selected, the margins of
+the variable are defined, the expected value broadcasts against the selected elements and every
+pair is within the margins -/
+def HoldsValue (w : Sim) (t : YTest) (x : Expectation) : Prop :=
   ∃ per ty vec vs a r ps, x.period = some per ∧ w.vtype x.var = some ty ∧ w.calcv x.var per = .ok vec ∧
     selectInst w x vec = .ok vs ∧ marginFor t.absM x.var = .ok a ∧ marginFor t.relM x.var = .ok r ∧
     pairUp vs x.expected = .ok ps ∧ ∀ p ∈ ps, Within (cmpMode ty x.expected) a r p.1 p.2
+
+/-- **an expectation holds of the engine**: a named instance exists, and either the runner was told
+to leave the variable out (`only_variables` / `ignore_variables`) or the value is within the margins -/
+def Holds (w : Sim) (t : YTest) (x : Expectation) : Prop :=
+  instKnown w x = true ∧ (shouldIgnore t x.var = true ∨ HoldsValue w t x)
 
 theorem assertNear_iff (ty : VType) (vs : List Val) (tg : Target) (a r : Option Rat) :
     assertNear ty vs tg a r = true ↔
@@ -691,34 +697,55 @@ theorem assertNear_iff (ty : VType) (vs : List Val) (tg : Target) (a r : Option 
     · intro h p hp; exact (holds1_iff _ a r p.1 p.2).mp (h p hp)
     · intro h p hp; exact (holds1_iff _ a r p.1 p.2).mpr (h p hp)
 
-theorem checkExpectation_iff (w : Sim) (t : YTest) (x : Expectation) :
-    checkExpectation w t x = true ↔ Holds w t x := by
+theorem checkValue_iff (w : Sim) (t : YTest) (x : Expectation) :
+    checkValue w t x = true ↔ HoldsValue w t x := by
   constructor
   · intro h
     cases hper : x.period with
-    | none => simp [checkExpectation, hper] at h
+    | none => simp [checkValue, hper] at h
     | some per =>
       cases hty : w.vtype x.var with
-      | none => simp [checkExpectation, hper, hty] at h
+      | none => simp [checkValue, hper, hty] at h
       | some ty =>
         cases hv : w.calcv x.var per with
-        | error e => simp [checkExpectation, hper, hty, hv] at h
+        | error e => simp [checkValue, hper, hty, hv] at h
         | ok vec =>
           cases hs : selectInst w x vec with
-          | error e => simp [checkExpectation, hper, hty, hv, hs] at h
+          | error e => simp [checkValue, hper, hty, hv, hs] at h
           | ok vs =>
             cases ha : marginFor t.absM x.var with
-            | error e => simp [checkExpectation, hper, hty, hv, hs, ha] at h
+            | error e => simp [checkValue, hper, hty, hv, hs, ha] at h
             | ok a =>
               cases hr : marginFor t.relM x.var with
-              | error e => simp [checkExpectation, hper, hty, hv, hs, ha, hr] at h
+              | error e => simp [checkValue, hper, hty, hv, hs, ha, hr] at h
               | ok r =>
-                simp only [checkExpectation, hper, hty, hv, hs, ha, hr] at h
+                simp only [checkValue, hper, hty, hv, hs, ha, hr] at h
                 obtain ⟨ps, hp, hall⟩ := (assertNear_iff ty vs x.expected a r).mp h
                 exact ⟨per, ty, vec, vs, a, r, ps, hper, hty, hv, hs, ha, hr, hp, hall⟩
   · rintro ⟨per, ty, vec, vs, a, r, ps, h1, h2, h3, h4, h5, h6, h7, h8⟩
-    simp only [checkExpectation, h1, h2, h3, h4, h5, h6]
+    simp only [checkValue, h1, h2, h3, h4, h5, h6]
     exact (assertNear_iff ty vs x.expected a r).mpr ⟨ps, h7, h8⟩
+
+theorem checkExpectation_iff (w : Sim) (t : YTest) (x : Expectation) :
+    checkExpectation w t x = true ↔ Holds w t x := by
+  unfold checkExpectation Holds
+  cases hk : instKnown w x with
+  | false => simp
+  | true =>
+    cases hi : shouldIgnore t x.var with
+    | true => simp
+    | false => simp [checkValue_iff]
+
+theorem checkExpectation_eq_false_of {w : Sim} {t : YTest} {x : Expectation}
+    (hig : shouldIgnore t x.var = false) (h : checkValue w t x = false) : checkExpectation w t x = false := by
+  unfold checkExpectation
+  cases instKnown w x <;> simp [hig, h]
+
+theorem checkExpectation_eq_value {w : Sim} {t : YTest} {x : Expectation}
+    (hk : instKnown w x = true) (hig : shouldIgnore t x.var = false) :
+    checkExpectation w t x = checkValue w t x := by
+  unfold checkExpectation
+  simp [hk, hig]
 
 /-! ## The three layouts of one set of expectations -/
 
@@ -811,7 +838,8 @@ theorem cmpMode_scalar_of_list (ty : VType) {es : List Exp} (hh : Homogeneous es
 /-- the comparison of the `k`-th instance alone is the `k`-th comparison of the whole vector -/
 theorem instExps_all (w : Sim) (t : YTest) (pl var per : String) (ty : VType) (vec : List Val) (a r : Option Rat)
     (m : Mode) (hty : w.vtype var = some ty) (hv : w.calcv var per = .ok vec)
-    (ha : marginFor t.absM var = .ok a) (hr : marginFor t.relM var = .ok r) :
+    (ha : marginFor t.absM var = .ok a) (hr : marginFor t.relM var = .ok r)
+    (hig : shouldIgnore t var = false) :
     ∀ (ids : List String) (es : List Exp) (o : Nat), es.length = ids.length → o + ids.length = vec.length →
       (∀ k (h : k < ids.length), w.index pl ids[k] = some (o + k)) →
       (∀ e ∈ es, cmpMode ty (.scalar e) = m) →
@@ -828,7 +856,7 @@ theorem instExps_all (w : Sim) (t : YTest) (pl var per : String) (ty : VType) (v
       have := hidx 0 (by simp)
       simpa using this
     have hg : vec[o]? = some vec[o] := List.getElem?_eq_getElem ho'
-    have ih := instExps_all w t pl var per ty vec a r m hty hv ha hr ids es (o + 1)
+    have ih := instExps_all w t pl var per ty vec a r m hty hv ha hr hig ids es (o + 1)
       (by simpa using hl) (by simp at ho; omega)
       (fun k h => by
         have := hidx (k + 1) (by simp; omega)
@@ -838,8 +866,9 @@ theorem instExps_all (w : Sim) (t : YTest) (pl var per : String) (ty : VType) (v
     have hme : cmpMode ty (.scalar e) = m := hm e (by simp)
     simp only [instExps, List.all_cons, ih, hd, List.zip_cons_cons]
     congr 1
-    simp only [checkExpectation, hty, hv, selectInst, Option.getD_some, hi0, hg, ha, hr, assertNear,
-      pairUp, List.map_cons, List.map_nil, List.all_cons, List.all_nil, Bool.and_true, hme]
+    simp only [checkExpectation, instKnown, checkValue, hig, hty, hv, selectInst, Option.getD_some, hi0, hg,
+      ha, hr, assertNear, pairUp, List.map_cons, List.map_nil, List.all_cons, List.all_nil, Bool.and_true, hme,
+      Option.isSome_some, Bool.true_eq_false, Bool.false_eq_true, if_false]
 
 theorem instExps_all_false_of (w : Sim) (t : YTest) (pl var : String) (per : Option String)
     (hbad : ∀ x : Expectation, x.var = var → x.period = per → checkExpectation w t x = false) :
@@ -1037,5 +1066,23 @@ theorem apiFormulaAt_served (l : List (Int × V)) (hl : l.Pairwise (fun a b => a
       exact apiGetValue_base l hl d
 
 end Listings
+
+theorem instExps_all_true_of_ignored (w : Sim) (t : YTest) (pl var : String) (per : Option String)
+    (hig : shouldIgnore t var = true) :
+    ∀ (ids : List String) (es : List Exp) (o : Nat),
+      (∀ k (h : k < ids.length), w.index pl ids[k] = some (o + k)) →
+      (instExps pl var per ids es).all (checkExpectation w t) = true
+  | [], _, _, _ => rfl
+  | _ :: _, [], _, _ => rfl
+  | id :: ids, e :: es, o, hidx => by
+    have hi0 : w.index pl id = some o := by
+      have := hidx 0 (by simp)
+      simpa using this
+    have ih := instExps_all_true_of_ignored w t pl var per hig ids es (o + 1) (fun k h => by
+      have := hidx (k + 1) (by simp; omega)
+      simp only [List.getElem_cons_succ] at this
+      rw [this]; congr 1; omega)
+    simp only [instExps, List.all_cons, ih, Bool.and_true, checkExpectation, instKnown, Option.getD_some, hi0,
+      Option.isSome_some, Bool.true_eq_false, if_false, hig, if_true]
 
 end OFCore.Api
